@@ -83,27 +83,34 @@ def gen(rng, n):
 
 
 def project(case, outs):
-    """records with a tag in TAGS; of the state probes (tag 8) every PROBE_SAMPLE-th of each run and
-    the first one of each run whose Pacing timer (probe field 24) is armed"""
+    """records with a tag in TAGS; of the state probes (tag 8): every PROBE_SAMPLE-th of each run, the
+    first one of each run whose Pacing timer (probe field 24) is armed, and the first probe of a
+    connection after each of its handle_timeout calls (the timer table right after the call)"""
     if outs == [[-999]]:
         return outs
     res = []
     k = 0
     paced_seen = False
+    after_ht = set()
     for r in outs:
         if not r:
             continue
         if r[0] == 99:
             k = 0
             paced_seen = False
+            after_ht = set()
             res.append(r)
         elif r[0] == 8:
             k += 1
             armed = len(r) > 28 and r[4 + 24] != -1
-            if k % PROBE_SAMPLE == 0 or (armed and not paced_seen):
+            key = (r[2], r[3])
+            if k % PROBE_SAMPLE == 0 or (armed and not paced_seen) or key in after_ht:
                 res.append(r)
+            after_ht.discard(key)
             paced_seen = paced_seen or armed
         elif r[0] in TAGS or r[0] == 16:
+            if r[0] == 7:
+                after_ht.add((r[2], r[3]))
             res.append(r)
     return res
 
@@ -155,9 +162,21 @@ V3_TAGS = (1, 2, 3, 4, 5)
 def ref_single(tr):
     """index of the first record violating a per-run rule, or None"""
     chain = {}
+    pend = {}
     for i, r in enumerate(tr):
         if r[0] == 16:
             return i
+        if r[0] == 7:
+            pend[(r[2], r[3])] = r[1]
+        if r[0] == 8 and (r[2], r[3]) in pend:
+            t = pend.pop((r[2], r[3]))
+            if r[1] == t:
+                tm = r[4 + 18:4 + 27]
+                for j, v in enumerate(tm):
+                    if j in (0, 7) or v == -1:
+                        continue
+                    if v < t or (j == 5 and v <= t):
+                        return i
         if r[0] == 7 and r[4] == 1:
             k = (r[2], r[3])
             t, n = chain.get(k, (-1, 0))
